@@ -11,7 +11,11 @@ LARGE = 100 * 1024 * 1024
 EXEMPT = [("PUT", "/vmAgentLog"), ("PUT", "/VMAGENTLOG"), ("POST", "/machine/?comp=telemetrydata"),
           ("POST", "/Machine/?COMP=TelemetryData")]
 NON_EXEMPT = [("POST", "/machine/?comp=telemetry"), ("PUT", "/vmagentlog2"), ("POST", "/vmAgentLog"),
-              ("PUT", "/machine/?comp=telemetrydata"), ("POST", "/metadata/instance"), ("PUT", "/vmAgentLog?x=1")]
+              ("PUT", "/machine/?comp=telemetrydata"), ("POST", "/metadata/instance"), ("PUT", "/vmAgentLog?x=1"),
+              # targets that only a normalising comparison would take for the two upload URLs
+              ("POST", "/machine/?comp=telemetrydata&comp=telemetrydata"), ("POST", "/machine/?&comp=telemetrydata"),
+              ("POST", "/machine/?comp=telemetrydata&"), ("PUT", "/vmAgentLog?"), ("POST", "/machine?comp=telemetrydata"),
+              ("PUT", "/vmAgentLog/"), ("PUT", "//vmAgentLog")]
 
 
 def spec_limit(method, target):
@@ -41,6 +45,48 @@ def oracle(chk, o, m):
         if st != 200 or len(full) != 1 or full[0]["body"] != body:
             chk.violation("body within the limit was not relayed intact", d, expected=(200, len(body)),
                           observed=(st, [len(r["body"]) for r in full]))
+
+
+def declared_lengths(chk, stack, caller):
+    """the limit classes probed by what a request DECLARES (Content-Length), no body sent: a declared length above the limit of its
+    class is refused at once, one at or below it is not (the listener waits for the body) - also around 100 MiB, every run"""
+    probes = [("PUT", "/vmAgentLog", LARGE), ("PUT", "/vmAgentLog", LARGE + 1), ("PUT", "/vmAgentLog", LARGE - 1),
+              ("PUT", "/vmAgentLog", 1000 * LOW + 1), ("PUT", "/vmAgentLog", 1024 * 1000 * 100 + 1), ("PUT", "/vmAgentLog", 2 * LARGE),
+              ("POST", "/machine/?comp=telemetrydata", LARGE), ("POST", "/machine/?comp=telemetrydata", LARGE + 1),
+              ("POST", "/machine/?comp=telemetrydata", (1 << 32) + 5), ("PUT", "/vmAgentLog", (1 << 32) + LOW), ("PUT", "/vmAgentLog", (1 << 31) + 1),
+              ("POST", "/machine/?comp=telemetry", LOW), ("POST", "/machine/?comp=telemetry", LOW + 1), ("POST", "/machine/?comp=telemetry", 100 * 1000 + 1),
+              ("POST", "/machine/?comp=telemetry", (1 << 32) + 7), ("POST", "/machine/?comp=telemetry", LARGE)]
+    for method, target, declared in probes:
+        limit = spec_limit(method, target)
+        stack.hosts.take()
+        before = sum(stack.hosts.total_bytes().values())
+        try:
+            conn = stack.connect(audit=(0, caller["pid"], 1, e2e.WS[0], e2e.WS[1]))
+        except OSError:
+            chk.disagreement("declared-length", {"method": method, "target": target, "declared": declared}, "a connection", "refused")
+            continue
+        try:
+            conn.send(("%s %s HTTP/1.1\r\nHost: h\r\nContent-Length: %d\r\n\r\n" % (method, target, declared)).encode())
+            try:
+                r = conn.read_response(method.encode(), 1.2 if declared <= limit else 5.0)
+            except OSError:
+                r = None
+        finally:
+            conn.close()
+        time.sleep(0.05)
+        relayed = sum(stack.hosts.total_bytes().values()) - before
+        st = r and r["status"]
+        chk.case(nontrivial_key=("declared", method, target, declared, st))
+        chk.count("declared_over_limit" if declared > limit else "declared_within_limit")
+        d = {"request": "%s %s with Content-Length: %d and no body bytes sent" % (method, target, declared), "limit_of_its_class": limit,
+             "status": st, "upstream_bytes": relayed}
+        if declared > limit:
+            if st is None or not (400 <= st < 500) or relayed:
+                chk.violation("oversize body was not refused with a 4xx / part of it was relayed", d, expected="4xx at once, 0 upstream bytes",
+                              observed=(st, relayed))
+        elif st is not None and 400 <= st < 500:
+            chk.violation("body within the limit was not relayed intact", d, expected="no refusal: the listener waits for the body",
+                          observed=st)
 
 
 def big_body(n, rng):
@@ -136,6 +182,7 @@ def run(chk):
                                "chunked": ([1 << 20] * 101 if chunked else None)}
                         runner.run_case({"env": env, "caller": caller, "dest": e2e.WS, "label": "ws", "req": req, "plan": None,
                                          "timeout": 120.0, "nomodel": True})
+        declared_lengths(chk, stack, caller)
         runner.finish(oracle)
         chk.sample(runner.describe(runner.observations[3]))
         chk.sample(runner.describe(runner.observations[-1]))
